@@ -135,6 +135,105 @@ def qt(n):
     return n.get('type', {}).get('qualType', '')
 
 
+def normalise_ast(body, fname):
+    """source-level rewrites done on the AST before translation (each is an equivalence of C programs):
+    (1) a local array `T x[N]` without initialiser whose every use is `x[<literal>]` becomes N scalars `x__0 .. x__(N-1)`;
+    (2) `while (v--) S` (S without break/continue at its level) becomes `{ while (v) { v--; S }  v--; }`;
+    (3) `while (1) { S; break; }` (no other break/continue of that loop in S) becomes `{ S }`."""
+    arrays = {}
+
+    def find_arrays(n):
+        if n.get('kind') == 'VarDecl':
+            m = re.match(r'(.*)\[(\d+)\]$', n['type']['qualType'])
+            init = [c for c in n.get('inner', []) if isinstance(c, dict) and not c.get('kind', '').endswith('Comment')]
+            if m and not init and kind_of(m.group(1).strip()) in LTYPE:
+                arrays[n['id']] = (n['name'], int(m.group(2)), m.group(1).strip())
+        for c in n.get('inner', []):
+            if isinstance(c, dict):
+                find_arrays(c)
+    find_arrays(body)
+
+    def uses_ok(n, parent_ok=False):
+        """every reference to a candidate array is the base of a literal subscript"""
+        if n.get('kind') == 'ArraySubscriptExpr':
+            b = strip(n['inner'][0])
+            i = strip(n['inner'][1])
+            if b.get('kind') == 'DeclRefExpr' and b['referencedDecl']['id'] in arrays:
+                if i.get('kind') != 'IntegerLiteral' or not (0 <= int(i['value']) < arrays[b['referencedDecl']['id']][1]):
+                    arrays.pop(b['referencedDecl']['id'])
+                return
+        if n.get('kind') == 'DeclRefExpr' and n['referencedDecl']['id'] in arrays:
+            arrays.pop(n['referencedDecl']['id'])
+            return
+        for c in n.get('inner', []):
+            if isinstance(c, dict):
+                uses_ok(c)
+    uses_ok(body)
+
+    def level_has(n, kinds):
+        """break / continue belonging to THIS loop level (not to a nested loop or switch)"""
+        if n.get('kind') in kinds:
+            return True
+        if n.get('kind') in ('WhileStmt', 'ForStmt', 'DoStmt'):
+            return False
+        if n.get('kind') == 'SwitchStmt':
+            return any(level_has(c, ('ContinueStmt',)) for c in n.get('inner', []) if isinstance(c, dict)) if 'ContinueStmt' in kinds else False
+        return any(level_has(c, kinds) for c in n.get('inner', []) if isinstance(c, dict))
+
+    def rw(n):
+        if not isinstance(n, dict):
+            return n
+        if 'inner' in n:
+            n['inner'] = [rw(c) for c in n['inner']]
+        k = n.get('kind')
+        if k == 'DeclStmt':
+            new = []
+            for d in n.get('inner', []):
+                if d.get('kind') == 'VarDecl' and d.get('id') in arrays:
+                    nm, cnt, et = arrays[d['id']]
+                    for j in range(cnt):
+                        new.append(dict(kind='VarDecl', id='%s__%d' % (d['id'], j), name='%s__%d' % (nm, j), type=dict(qualType=et)))
+                else:
+                    new.append(d)
+            n['inner'] = new
+            return n
+        if k == 'ArraySubscriptExpr':
+            b = strip(n['inner'][0])
+            if b.get('kind') == 'DeclRefExpr' and b['referencedDecl']['id'] in arrays:
+                nm, cnt, et = arrays[b['referencedDecl']['id']]
+                j = int(strip(n['inner'][1])['value'])
+                return dict(kind='DeclRefExpr', type=dict(qualType=et), valueCategory='lvalue',
+                            referencedDecl=dict(id='%s__%d' % (b['referencedDecl']['id'], j), kind='VarDecl', name='%s__%d' % (nm, j),
+                                                type=dict(qualType=et)))
+            return n
+        if k == 'WhileStmt':
+            kids = [c for c in n['inner'] if isinstance(c, dict)]
+            cond, bd = kids[0], kids[-1]
+            c0 = cond
+            while c0.get('kind') in ('ParenExpr', 'ImplicitCastExpr'):
+                c0 = c0['inner'][0]
+            if c0.get('kind') == 'UnaryOperator' and c0.get('opcode') == '--' and c0.get('isPostfix') and \
+               c0['inner'][0].get('kind') == 'DeclRefExpr':
+                if level_has(bd, ('BreakStmt', 'ContinueStmt')):
+                    raise CTransError('%s: while (v--) with break/continue' % fname)
+                var = c0['inner'][0]
+                ty = var.get('type', dict(qualType='int'))
+                rv = dict(kind='ImplicitCastExpr', castKind='LValueToRValue', type=ty, inner=[var])
+                zero = dict(kind='IntegerLiteral', value='0', type=dict(qualType='int'))
+                ne = dict(kind='BinaryOperator', opcode='!=', type=dict(qualType='int'), inner=[rv, zero])
+                dec = dict(kind='UnaryOperator', opcode='--', isPostfix=True, type=ty, inner=[var])
+                stmts = list(bd.get('inner', [])) if bd.get('kind') == 'CompoundStmt' else [bd]
+                loop = dict(kind='WhileStmt', inner=[ne, dict(kind='CompoundStmt', inner=[dec] + stmts)])
+                return dict(kind='CompoundStmt', inner=[loop, dict(dec)], vt_flat=True)
+            if c0.get('kind') == 'IntegerLiteral' and c0.get('value') == '1' and bd.get('kind') == 'CompoundStmt':
+                stmts = [c for c in bd.get('inner', []) if isinstance(c, dict)]
+                if stmts and stmts[-1].get('kind') == 'BreakStmt' and \
+                   not any(level_has(c, ('BreakStmt', 'ContinueStmt')) for c in stmts[:-1]):
+                    return dict(kind='CompoundStmt', inner=stmts[:-1])
+        return n
+    return rw(body)
+
+
 class Fn:
     """translation of one function (or slice)"""
 
@@ -147,6 +246,9 @@ class Fn:
         self.arrays = {}          # local constant arrays: name -> (kind, [lean literals])
         self.loop_no = 0
         self.fuels = []
+        self.stride_vars = set()  # locals holding `X->rowstride`
+        self.rowptrs = set()      # pointer locals that move from row to row (`p += k * rowstride`): their row is a variable
+        self.late_ptrs = set()    # pointer locals declared without initialiser, assigned later
         self.origin = {}          # Lean parameter -> ('scalar', c name) | ('field', struct, field) | ('mem', struct) | ('same', a, b)
         self.ret_mems = []        # memories a value-returning function writes: returned after the value and the out-parameters
         self.outparams = []       # scalar pointer parameters written through `*p = e`: returned after the value
@@ -325,6 +427,9 @@ class Fn:
                 return '(CLoop.tab [%s] %s %s)' % (', '.join(vals), self.lit(0, ak), ie)
             if nm in self.ptrs:
                 mem, row = self.ptrs[nm]
+                sm = self.stride_mult(idx)
+                if sm:
+                    return '(%s (%s + %s) %s)' % (self.rmem(mem), row, sm, V(nm))
                 return '(%s %s (%s + %s))' % (self.rmem(mem), row, V(nm), ie)
             if nm in self.locals:
                 raise CTransError('%s: subscript of local %s' % (self.name, nm))
@@ -627,6 +732,26 @@ class Fn:
             return mem, idx, x, mb['name']
         return None, idx, x, mb['name']
 
+    def stride_mult(self, n):
+        """k (a Lean Int) if the integer expression `n` is k * rowstride of the matrix (rows lie `rowstride` words apart, so a
+        pointer moved by k * rowstride points k rows further down at the same word), else None"""
+        n = strip(n)
+        while n.get('kind') in ('CStyleCastExpr', 'ImplicitCastExpr', 'ParenExpr'):
+            n = strip(n['inner'][0])
+        if n.get('kind') == 'DeclRefExpr' and n['referencedDecl']['name'] in self.stride_vars:
+            return '(1 : Int)'
+        if n.get('kind') == 'MemberExpr' and n.get('name') == 'rowstride':
+            return '(1 : Int)'
+        if n.get('kind') == 'BinaryOperator' and n.get('opcode') == '*':
+            a, b = n['inner']
+            for x, y in ((a, b), (b, a)):
+                x0 = strip(x)
+                while x0.get('kind') in ('CStyleCastExpr', 'ImplicitCastExpr', 'ParenExpr'):
+                    x0 = strip(x0['inner'][0])
+                if x0.get('kind') == 'IntegerLiteral' and self.stride_mult(y) == '(1 : Int)':
+                    return '(%s : Int)' % x0['value']
+        return None
+
     def ptr_expr(self, n):
         """(memory name, Lean row term, Lean offset term) of a pointer-valued expression: a pointer local, a call of
         mzd_row / mzd_row_const, or one of these plus/minus an integer"""
@@ -669,6 +794,9 @@ class Fn:
             if base.get('kind') == 'DeclRefExpr' and base['referencedDecl']['name'] in self.ptrs:
                 nm = base['referencedDecl']['name']
                 mem, row = self.ptrs[nm]
+                sm = self.stride_mult(idx)
+                if sm:
+                    return mem, '(%s + %s)' % (row, sm), V(nm)
                 return mem, row, '(%s + %s)' % (V(nm), self.as_int(idx))
         if n.get('kind') == 'UnaryOperator' and n['opcode'] == '*':
             a = strip(n['inner'][0])
@@ -762,8 +890,14 @@ class Fn:
                 t = strip(n['inner'][0])
                 if t.get('kind') == 'DeclRefExpr':
                     nm = t['referencedDecl']['name']
+                    if k == 'CompoundAssignOperator' and nm in self.rowptrs and self.stride_mult(n['inner'][1]):
+                        nm = nm + '__row'
+                        if nm[:-5] in declared:
+                            declared.add(nm)
                     if nm not in declared and nm not in out:
                         out.append(nm)
+                    if k == 'BinaryOperator' and nm in self.late_ptrs and nm not in declared and nm + '__row' not in out:
+                        out.append(nm + '__row')
                 elif n.get('kind') != 'UnaryOperator' and t.get('kind') == 'UnaryOperator' and t.get('opcode') == '*' and \
                         strip(t['inner'][0]).get('kind') == 'DeclRefExpr' and strip(t['inner'][0])['referencedDecl']['name'] in self.outparams:
                     nm = 'deref_' + strip(t['inner'][0])['referencedDecl']['name']
@@ -983,6 +1117,11 @@ class Fn:
             if nm in self.ptrs:
                 if op not in ('+', '-'):
                     raise CTransError('%s: pointer %s %s=' % (self.name, nm, op))
+                sm = self.stride_mult(n['inner'][1])
+                if sm:
+                    if nm not in self.rowptrs:
+                        raise CTransError('%s: pointer %s moved by a row stride but not registered' % (self.name, nm))
+                    return nm + '__row', '(%s %s %s)' % (V(nm + '__row'), op, sm)
                 return nm, '(%s %s %s)' % (V(nm), op, self.as_int(n['inner'][1]))
             # the operation is carried out in the computation type, the result converted back to the variable's type
             ck = kind_of(n.get('computeResultType', {}).get('qualType', '') or qt(n)) or self.expr_kind(t)
@@ -1020,6 +1159,13 @@ class Fn:
         k = s.get('kind')
         if k in ('NullStmt',) or (k == 'CStyleCastExpr' and s.get('castKind') == 'ToVoid'):
             return self.seq(rest, k_final, ind)       # `;` and `assert(..)` under NDEBUG
+        if k == 'BinaryOperator' and s.get('opcode') == '=' and strip(s['inner'][0]).get('kind') == 'DeclRefExpr' and \
+           strip(s['inner'][0])['referencedDecl']['name'] in self.late_ptrs and strip(s['inner'][0])['referencedDecl']['name'] in self.ptrs:
+            nm_ = strip(s['inner'][0])['referencedDecl']['name']
+            mem_, row_, off_ = self.ptr_expr(s['inner'][1])
+            if mem_ != self.ptrs[nm_][0]:
+                raise CTransError('%s: pointer %s assigned from a different matrix' % (self.name, nm_))
+            return '%slet %s__row : Int := %s\n%slet %s : Int := %s\n' % (pad, V(nm_), row_, pad, V(nm_), off_) + self.seq(rest, k_final, ind)
         if k == 'IfStmt' and self.ptr_swap(s):
             c_, x_, y_ = self.ptr_swap(s)
             return self.swap_lets(c_, x_, y_, pad) + self.seq(rest, k_final, ind)
@@ -1053,6 +1199,13 @@ class Fn:
                     continue
                 if dk == 'p:w' and init:
                     out += self.decl_pointer(nm, init[0], pad)
+                    continue
+                if dk == 'p:w' and not init and nm in self.late_ptrs and nm in self.ptr_mem:
+                    # `word *p;` assigned later from pointers into one matrix: (row, offset) variables
+                    self.ptrs[nm] = (self.ptr_mem[nm], '%s__row' % V(nm))
+                    self.locals[nm] = 'i'
+                    self.locals[nm + '__row'] = 'i'
+                    out += '%slet %s__row : Int := (0 : Int)\n%slet %s : Int := (0 : Int)\n' % (pad, V(nm), pad, V(nm))
                     continue
                 if dk == 'p:?' and init and strip(init[0]).get('kind') == 'CallExpr' and \
                    strip(strip(init[0])['inner'][0]).get('referencedDecl', {}).get('name') == 'mzd_t_malloc':
@@ -1666,8 +1819,31 @@ class Fn:
         self.base_of = base_of
 
         def walk(n):
+            if n.get('kind') == 'VarDecl' and kind_of(n['type']['qualType']) == 'i':
+                init = [c for c in n.get('inner', []) if isinstance(c, dict) and not c.get('kind', '').endswith('Comment')]
+                if init:
+                    i0 = strip(init[0])
+                    while i0.get('kind') in ('CStyleCastExpr', 'ImplicitCastExpr', 'ParenExpr'):
+                        i0 = strip(i0['inner'][0])
+                    if i0.get('kind') == 'MemberExpr' and i0.get('name') == 'rowstride' and 'const' in n['type']['qualType']:
+                        self.stride_vars.add(n['name'])
+            if n.get('kind') == 'CompoundAssignOperator' and n.get('opcode') in ('+=', '-='):
+                t_ = strip(n['inner'][0])
+                if t_.get('kind') == 'DeclRefExpr' and kind_of(qt(t_)) == 'p:w' and self.stride_mult(n['inner'][1]):
+                    self.rowptrs.add(t_['referencedDecl']['name'])
+            if n.get('kind') == 'BinaryOperator' and n.get('opcode') == '=':
+                t_ = strip(n['inner'][0])
+                if t_.get('kind') == 'DeclRefExpr' and t_['referencedDecl']['name'] in self.late_ptrs:
+                    b_, _ = self.ptr_source(n['inner'][1])
+                    if b_.get('kind') == 'DeclRefExpr' and b_['referencedDecl']['name'] in self.ptr_mem:
+                        m_ = self.ptr_mem[b_['referencedDecl']['name']]
+                        if self.ptr_mem.get(t_['referencedDecl']['name'], m_) != m_:
+                            raise CTransError('%s: pointer %s assigned from two matrices' % (self.name, t_['referencedDecl']['name']))
+                        self.ptr_mem[t_['referencedDecl']['name']] = m_
             if n.get('kind') == 'VarDecl' and kind_of(n['type']['qualType']) == 'p:w':
                 init = [c for c in n.get('inner', []) if isinstance(c, dict) and not c.get('kind', '').endswith('Comment')]
+                if not init:
+                    self.late_ptrs.add(n['name'])
                 if init:
                     base, _ = self.ptr_source(init[0])
                     mc = self.mzd_row_call(base)
@@ -1707,6 +1883,12 @@ class Fn:
             pass
         if off:
             start = '(%s %s %s)' % (start, off[0], self.as_int(off[1]))
+        if nm in self.rowptrs:
+            own = '%s__row' % V(nm)
+            if rowv != own:
+                out += '%slet %s : Int := %s\n' % (pad, own, rowv)
+                rowv = own
+            self.locals[nm + '__row'] = 'i'
         self.ptrs[nm] = (mem, rowv)
         self.locals[nm] = 'i'
         return out + '%slet %s : Int := %s\n' % (pad, V(nm), start)
@@ -1927,6 +2109,7 @@ class Translator:
         fn = Fn(self, cname if not slice_ else lname)
         fn.alias = dict(alias or {})
         body = [c for c in ast['inner'] if c.get('kind') == 'CompoundStmt'][0]
+        body = normalise_ast(body, cname)
         fn.body_ast = body
         if slice_ is None:
             for p in ast['inner']:
@@ -2213,6 +2396,11 @@ def catalogue(t):
       doc='C = A + B with C == A and/or C == B allowed: width-specialised loops (1..8 words), mzd_combine_even beyond')
     F('m4ri/mzd.c', 'mzd_add', 'mzdAddTop', retparam='ret', nosse=True, alias={'left': 'ret', 'right': 'ret'},
       doc='for a supplied destination: the dimension checks (die = outside the domain) and _mzd_add')
+    F('m4ri/mzd.c', 'mzd_col_swap_in_rows', 'mzdColSwapInRows', fuels=['(v_stop_row - v_start_row).toNat'] * 3,
+      doc='column swap in a row range: same-word path (4-fold unrolled + rest) and two-word path; the pointer walks down the rows')
+    F('m4ri/mzd.c', 'mzd_col_swap', 'mzdColSwap', doc='mzd_col_swap_in_rows on all rows')
+    F('m4ri/mzp.c', 'mzd_apply_p_right_trans_tri', 'mzdApplyPRightTransTri', fuels=['(v_A_nrows).toNat', '(v_A_ncols).toNat'],
+      doc='column permutation above the diagonal, in row blocks of L1-cache size')
     F('m4ri/mzd.c', 'mzd_set_ui', 'mzdSetUi', fuels=['(v_A_nrows).toNat', '(v_A_width).toNat', '(v_A_nrows).toNat'])
     TRSM = dict(mats=(0, 1), writes=(1,))
     PLUQ = dict(mats=(0,), perms=(1, 2), ret='i', writes=(0,), pwrites=(1, 2))
